@@ -2,6 +2,8 @@ package props
 
 import (
 	"fmt"
+	"os"
+	"path/filepath"
 	"strings"
 	"sync"
 	"testing"
@@ -31,6 +33,39 @@ func genConc(g *G, prog *Program, kinds []string, maxWorkers, maxOps int) {
 		ws = append(ws, ops)
 	}
 	prog.Aux = map[string]interface{}{"workers": ws, "intensity": 32 + g.uni(200, "intensity"), "warm": g.pct("warm") < 70}
+	if prog.Cfg.Async != nil && g.pct("crashprelude") < 35 {
+		// the workers start on a handle opened on a copy of the directory taken while writes
+		// were pending: whatever state a crashed process leaves, no call may block on it
+		prog.Aux["crashPrelude"] = true
+		prog.Ops = append(prog.Ops, Op{Op: "many", Items: []BatchItem{{Kind: "new", D: g.Doc()}, {Kind: "new", D: g.Doc()}}})
+	}
+}
+
+// crashPrelude swaps the handle for one opened on a copy of the directory as it is right now
+// (the copy lives inside the root, so Teardown removes it; the old handle is closed at once).
+func crashPrelude(e *Env, prog *Program) {
+	if on, _ := prog.Aux["crashPrelude"].(bool); !on || e.cfg.Async == nil {
+		return
+	}
+	snap := filepath.Join(e.root, ".snap")
+	filepath.Walk(e.root, func(p string, info os.FileInfo, err error) error {
+		if err != nil {
+			return nil
+		}
+		rel, _ := filepath.Rel(e.root, p)
+		if rel == ".snap" || strings.HasPrefix(rel, ".snap"+string(filepath.Separator)) {
+			return nil
+		}
+		if info.IsDir() {
+			os.MkdirAll(filepath.Join(snap, rel), 0777)
+		} else if b, err := os.ReadFile(p); err == nil {
+			os.WriteFile(filepath.Join(snap, rel), b, 0666)
+		}
+		return nil
+	})
+	e.db.Close()
+	e.db = sod.Open(snap)
+	e.flag("workers-start-on-a-crash-state")
 }
 
 func c09Profile() *Profile {
@@ -86,6 +121,7 @@ func caseC09(t TB, prog *Program) {
 				}
 			}()
 			e.Run()
+			crashPrelude(e, prog)
 			known := append([]string(nil), e.m.live...)
 			vshim.Monitor(true, inject)
 			var evs []Event
@@ -150,6 +186,9 @@ func caseC09(t TB, prog *Program) {
 	e := NewEnv(t, prog, RunOpts{NoObs: true})
 	e.db.Create(&Other{}, sod.DefaultSchema)
 	e.Run()
+	crashed, _ := prog.Aux["crashPrelude"].(bool)
+	crashed = crashed && e.cfg.Async != nil
+	crashPrelude(e, prog)
 	known := append([]string(nil), e.m.live...)
 	var wg sync.WaitGroup
 	t0 := time.Now()
@@ -188,7 +227,11 @@ func caseC09(t TB, prog *Program) {
 			return
 		}
 	}
-	finalConsistency(e, e.db)
+	if !crashed {
+		finalConsistency(e, e.db)
+	} else {
+		flags["workers-start-on-a-crash-state"] = 1
+	}
 	// Close must return, too
 	cdone := make(chan struct{})
 	go func() {
